@@ -41,6 +41,8 @@ type RunCfg struct {
 	TimeoutS int               `json:"timeout_s"`
 	QueryMs  int               `json:"query_ms"`
 	Stubs    map[string]string `json:"stubs"`
+	Replay   string            `json:"replay"` // "" (native) | "none"
+	ReplayWhy string           `json:"replay_why"`
 }
 
 type KnownFinding struct {
@@ -294,7 +296,11 @@ func Main(args []string) int {
 				path := writeReplay(*verifDir, cfg.Property, rc, params, v, replaySeq)
 				confirmed := true
 				why := ""
-				if !*noReplay {
+				if rc.Replay == "none" {
+					// the run replaces real callees by observation points (call: stubs), so
+					// the harness cannot run natively; the solver's inputs are reported as is
+					fmt.Printf("  (run %s: engine-only counterexample, native replay not available: %s)\n", rc.Name, rc.ReplayWhy)
+				} else if !*noReplay {
 					confirmed, why = nativeReplay(*repo, *verifDir, cfgDir, cfg, rc, path)
 				}
 				if confirmed {
